@@ -180,6 +180,10 @@ func c15Derivations(thorough bool) []string {
 	}
 	// hand-written layouts the renderer does not produce
 	out = append(out, "a == 1", "a==1", "(a == 1)", " ( a == 1 ) ", "not a == 1", "a == 1 and b == 2 or x is empty", "a.b.0 == x", `a["b"].c != "s"`, "1 in a", "a contains 1", "a not contains 1",
+		// selector-shaped values (the value text is the selector's dotted rendering) and identifiers that start with a keyword
+		"x == a.0", "x == a.b.c", `x == a["b c"].d`, "a.b in x", "a.0 not in x.y", `x != "/a/0"`, `"/a/b" in x`, "x contains a.b",
+		"notes == 1", "android != nothing", "order is empty", "inside in isempty", "anyone matches allow", "any asset as ask { ask == notx }",
+		"all matchesx as containsx, iss { iss is not empty and not nota == emptyx }", "x == not", "x == in", "not nothing == 1",
 		"a is not empty", "a not matches `s`", "any a as x { x == 1 }", "all a as i, _ { i != 0 }", "any a as _, x {x == `s`}", `"/a/b" == "/a"`, "a == -1.5", "not (a == 1 or b == 1)")
 	return out
 }
